@@ -161,6 +161,9 @@ TVisit ==
   /\ Step("Visit") /\ UNCHANGED vars
   /\ LET q == view[Ev.sn]  all == Flat(Ev.res, 1)
          mustErr == Ev.errat > 0 /\ Ev.calls >= Ev.errat IN
+     IF Ev.hang   \* the driver abandons a stuck instance: no observations come with the event
+       THEN /\ bad' = Note(bad, "C10:Visitor did not terminate", "BAD") /\ UNCHANGED <<drift, stored, dx>>
+       ELSE
      Judge(<< <<~Ev.hang, "C10:Visitor did not terminate">>,
               <<Ev.err = mustErr, "C10:Visitor did not return the callback's error (or returned an error without one)">>,
               <<~mustErr => all = q, "C10:items delivered over all shards, in shard order, differ from the snapshot's items">>,
